@@ -41,8 +41,12 @@ const T_NEG: u8 = 9;
 const T_COND: u8 = 10;
 const H_CACHED: u8 = 11;
 const B_EQ: u8 = 12;
-const NK: usize = 13;
-const KN: [&str; NK] = ["clause", "var", "negate", "and", "or", "condition", "exists", "compile_cnf", "compile_cnf_topdown", "negate(td)", "condition(td)", "cached_hash", "eq"];
+/// the builders' statistics entry points (public calls that walk the stores)
+const H_STATS: u8 = 13;
+/// copy a stored top-down node, edit the copy through its public fields, hand it to get_or_insert
+const H_CLONE_EDIT: u8 = 14;
+const NK: usize = 15;
+const KN: [&str; NK] = ["clause", "var", "negate", "and", "or", "condition", "exists", "compile_cnf", "compile_cnf_topdown", "negate(td)", "condition(td)", "cached_hash", "eq", "statistics", "clone+edit+get_or_insert"];
 
 type BP = BddPtr<'static>;
 type SP = SddPtr<'static>;
@@ -408,6 +412,49 @@ fn run(plan: &Plan, ctx: &mut Ctx) -> R {
                     let w = f_large.defsum(t);
                     ctx.check("C11", "cached-hash-equals-recomputed", c == w, || format!("{name} h{x}: cached_semantic_hash = {c}, recomputed from its function = {w} (model {want})"))?;
                 }
+                if ntd > 0 {
+                    let y = resolve(op.a[1], ntd);
+                    for (name, c, t) in [
+                        ("top-down diagram (standard store)", t_std[y].cached_semantic_hash(td_std.order(), &f_large.map).value(), wb::walk_raw(t_std[y], &mut BTreeMap::new())),
+                        ("top-down diagram (hash-identified store)", t_sem[y].cached_semantic_hash(td_sem.order(), &f_large.map).value(), wb::walk_raw(t_sem[y], &mut BTreeMap::new())),
+                    ] {
+                        let w = f_large.defsum(t);
+                        ctx.check("C11", "cached-hash-equals-recomputed", c == w, || format!("{name} t{y}: cached_semantic_hash = {c}, recomputed from its function = {w}"))?;
+                    }
+                }
+            }
+            H_STATS => {
+                // statistics are queries like any other: nothing they compute may change a later answer
+                let a = td_std.num_logically_redundant();
+                let b = td_sem.num_logically_redundant();
+                let _ = (td_std.stats(), td_sem.stats(), sem.stats(), sdd_c.stats(), sdd_u.stats(), bdd1.stats(), bdd2.stats());
+                ctx.ev(200 + kind as u64, &[a as u64, b as u64]);
+            }
+            H_CLONE_EDIT => {
+                let nodes = td_sem.verif_nodes();
+                if nodes.is_empty() {
+                    continue;
+                }
+                let nd = nodes[op.a[0].unsigned_abs() as usize % nodes.len()];
+                if flag {
+                    // make sure the original has its hash memoised before it is copied
+                    let _ = BddPtr::Reg(nd).cached_semantic_hash(td_sem.order(), &f_large.map);
+                }
+                // the copy with its children swapped decides the same variable the other way round
+                let mut c = nd.clone();
+                std::mem::swap(&mut c.low, &mut c.high);
+                let orig = wb::walk_raw(BddPtr::Reg(nd), &mut BTreeMap::new());
+                let vv = nd.var.value_usize();
+                let want = (tt::lit(vv, true) & tt::restrict(orig, vv, false)) | (tt::lit(vv, false) & tt::restrict(orig, vv, true));
+                let r = td_sem.get_or_insert(c);
+                let got = wb::walk_raw(r, &mut BTreeMap::new());
+                ctx.ev(200 + kind as u64, &[wb::addr(r) as u64, r.is_neg() as u64, tt::lo(got), tt::hi(got)]);
+                ctx.check("C11", "semantic-topdown-builder-result-function", got == want, || {
+                    format!("get_or_insert(copy of a stored node with its children swapped) returned a diagram denoting {}, the node handed in denotes {}", tt::show(got), tt::show(want))
+                })?;
+                f_large.check(ctx, &r, got, "top-down diagram (hash-identified store, via get_or_insert)")?;
+                let ch = r.cached_semantic_hash(td_sem.order(), &f_large.map).value();
+                ctx.check("C11", "cached-hash-equals-recomputed", ch == f_large.defsum(got), || format!("node returned by get_or_insert: cached_semantic_hash = {ch}, recomputed from its function = {}", f_large.defsum(got)))?;
             }
             T_COMPILE | T_NEG | T_COND => {
                 let x = if ntd > 0 { resolve(op.a[0], ntd) } else { 0 };
@@ -451,6 +498,14 @@ fn run(plan: &Plan, ctx: &mut Ctx) -> R {
         let r5 = p_se[x].semantic_hash(&f_large.map).value();
         for (name, c, r) in [("BDD order 1", c1, r1), ("BDD order 2", c2, r2), ("compressed SDD", c3, r3), ("uncompressed SDD", c4, r4), ("hash-identified SDD", c5, r5)] {
             ctx.check("C11", "cached-hash-equals-recomputed", c == r, || format!("{name} h{x}: cached_semantic_hash = {c} but semantic_hash recomputes {r}"))?;
+        }
+    }
+    for y in 0..t_model.len() {
+        for (name, c, r) in [
+            ("top-down diagram (standard store)", t_std[y].cached_semantic_hash(td_std.order(), &f_large.map).value(), t_std[y].semantic_hash(&f_large.map).value()),
+            ("top-down diagram (hash-identified store)", t_sem[y].cached_semantic_hash(td_sem.order(), &f_large.map).value(), t_sem[y].semantic_hash(&f_large.map).value()),
+        ] {
+            ctx.check("C11", "cached-hash-equals-recomputed", c == r, || format!("{name} t{y}: cached_semantic_hash = {c} but semantic_hash recomputes {r}"))?;
         }
     }
     // hash-identified builders identify *nodes* by hash: two distinct stored nodes that denote the same
@@ -551,7 +606,7 @@ impl World for SemHashWorld {
             ops.push(Op { c: o.below(3) as u8, k: K_CLAUSE, a: gen_clause(&mut o, n) });
         }
         let mut w = [0u32; NK];
-        let base = [0u32, 8, 5, 10, 9, 6, 5, 3, 4, 2, 5, 5, 3];
+        let base = [0u32, 8, 5, 10, 9, 6, 5, 3, 4, 2, 5, 5, 3, 2, 2];
         for k in 1..NK {
             w[k] = if c.below(5) == 0 { 0 } else { base[k] * (1 + c.below(3) as u32) };
         }
